@@ -350,11 +350,22 @@ impl MessageBody for ScriptBody {
     }
 }
 
-#[derive(Debug)]
-pub struct SvcErr(pub u16, pub usize);
+/// Service error.  A `fail` program builds its response exactly like a successful one (status,
+/// headers, connection option, scripted body) and hands it over through the `Err` path, so that
+/// the dispatcher's separate error-response code is driven by the same scripts.
+pub struct SvcErr(pub u16, pub usize, pub Option<Response<BoxBody>>);
+
+impl std::fmt::Debug for SvcErr {
+    fn fmt(&self, f: &mut std::fmt::Formatter<'_>) -> std::fmt::Result {
+        write!(f, "SvcErr({}, {})", self.0, self.1)
+    }
+}
 
 impl From<SvcErr> for Response<BoxBody> {
     fn from(e: SvcErr) -> Self {
+        if let Some(r) = e.2 {
+            return r;
+        }
         let mut r = Response::build(StatusCode::from_u16(e.0).unwrap_or(StatusCode::INTERNAL_SERVER_ERROR));
         r.insert_header(("x-req-idx", e.1.to_string()));
         r.message_body(BoxBody::new(Bytes::from_static(b"svc-error"))).unwrap()
@@ -465,10 +476,6 @@ pub async fn handle(w: W, mut req: Request) -> Result<Response<BoxBody>, SvcErr>
     }
     let s = tick(&w);
     w.borrow_mut().reqs[idx].responded_seq = s;
-    if prog.fail {
-        return Err(SvcErr(prog.status, idx));
-    }
-
     let mut rb = Response::build(StatusCode::from_u16(prog.status).unwrap_or(StatusCode::OK));
     rb.insert_header(("x-req-idx", idx.to_string()));
     for (k, v) in &prog.headers {
@@ -517,7 +524,11 @@ pub async fn handle(w: W, mut req: Request) -> Result<Response<BoxBody>, SvcErr>
         BodyKind::CustomStream => BoxBody::new(ScriptBody { size: BodySize::Stream, stream }),
         BodyKind::CustomSized(n) => BoxBody::new(ScriptBody { size: BodySize::Sized(n), stream }),
     };
-    rb.message_body(body).map_err(|_| SvcErr(500, idx))
+    let resp = rb.message_body(body).map_err(|_| SvcErr(500, idx, None))?;
+    if prog.fail {
+        return Err(SvcErr(prog.status, idx, Some(resp)));
+    }
+    Ok(resp)
 }
 
 // ---------------------------------------------------------------------------------------------
